@@ -443,6 +443,7 @@ func genC13(t *rapid.T) c13Case {
 	c.HdrOpt = rapid.Bool().Draw(t, "hdropt")
 	c.CallerMD = genMD(t, "caller", 3)
 	c.Append = rapid.Bool().Draw(t, "append")
+	c.ReusePeer = c.PeerOpt > 0 && rapid.IntRange(0, 2).Draw(t, "reusepeer") == 0
 	switch rapid.IntRange(0, 7).Draw(t, "forwarded") {
 	case 0:
 		// proxy-style headers are ordinary metadata to this transport: they say nothing about the peer
@@ -490,7 +491,7 @@ func init() { registerReplay("C13", propC13) }
 
 const c13Rule = "exhaustive grid {httpgrpc.Server, HandleServices} x {http, https (httptest TLS server)} + in-process x {no creds, creds not requiring security, creds requiring it, creds returning an error} x {unary, stream} x {0,1,2 grpc.Peer options} x {grpc.Header or not}, then rapid-generated credential maps (empty, disjoint, overlapping caller keys) and caller metadata; " +
 	"oracle: security required over http => failure with 0 requests through a counting RoundTripper; credential error => that error, 0 requests; otherwise handler metadata per key = multiset union of caller and credential values with the caller's order kept; grpc.Peer = server host:port and TLSInfo with completed handshake iff https (unary and stream); handler peer likewise; in-process peers have network inproc; " +
-	"also generated since the seeded rounds: credential keys spelled with capitals, failing handlers, caller metadata partly attached with AppendToOutgoingContext, base URL host forms ([::1]:port, name:port, name without port), an earlier second credentials option (the later one is in force; a credential requiring security never crosses plain http), the per-method HTTP server form; " +
+	"also generated since the seeded rounds: credential keys spelled with capitals, failing handlers, caller metadata partly attached with AppendToOutgoingContext, base URL host forms ([::1]:port, name:port, name without port), an earlier second credentials option (the later one is in force; a credential requiring security never crosses plain http), the per-method HTTP server form, proxy-style keys (x-forwarded-for ...) in caller and credential metadata with the handler's peer compared to the connection's remote address, peer variables already filled by an earlier call; " +
 	"non-trivial = credentials present or https; distinct by case hash"
 
 func TestC13(t *testing.T) {
